@@ -5,4 +5,5 @@ Require ExtrOcamlBasic.
 Extraction "../extract/gen/fault_model.ml" FaultSpec.judge FaultSpec.absorbed FaultSpec.visible
   FaultModel.run_fn FaultModel.plan FaultModel.HPseek_prog FaultModel.HP_write_prog FaultModel.HP_read_prog
   FaultModel.HIextend_file_prog FaultModel.HTPsync_prog FaultModel.HIsync_prog FaultModel.HTPend_prog
-  FaultModel.Hsync_prog FaultModel.Hclose_prog FaultModel.Hclose_prog_orig FaultModel.hi_close_prog.
+  FaultModel.Hsync_prog FaultModel.Hclose_prog FaultModel.Hclose_prog_orig FaultModel.hi_close_prog
+  FaultModel.HTInew_dd_block_prog FaultModel.HPgetdiskblock_prog FaultModel.HTIupdate_dd_prog.
